@@ -210,7 +210,7 @@ func C15(rep *ev.Reporter, tier string) {
 								pc.Cancel()
 							}
 						}
-					case "pre":
+					case "pre", "pre-completed":
 						pc = hx.NewPollCtx(0, cause)
 					}
 					if far {
@@ -222,8 +222,15 @@ func C15(rep *ev.Reporter, tier string) {
 					o.Ctx = pc
 					w := c15World()
 					var tr *hx.Trace
-					if mode == "pre" {
+					if mode == "pre" || mode == "pre-completed" {
 						kb, _ := b.Instance()
+						if mode == "pre-completed" {
+							// the data context served before and was left completed (an earlier run ended with Complete())
+							if dc, err := hx.NewDataContext(w); err == nil {
+								dc.Complete()
+								o.DataCtx = dc
+							}
+						}
 						tr = &hx.Trace{MaxCycle: 6}
 						// flip before Execute is called: the FLIP marker goes first
 						tr.Events = append(tr.Events, "FLIP")
@@ -289,6 +296,7 @@ func C15(rep *ev.Reporter, tier string) {
 						}
 					}
 					try("pre", 0, cname, cause, far)
+					try("pre-completed", 0, cname, cause, far)
 				}
 			}
 		}
